@@ -251,10 +251,24 @@ pub mod imp {
         op!(v, "create_named_sub_element", "deep", "S3", |w| r(w.e("sub2el").create_named_sub_element(EN::System, "New")));
         op!(v, "create_named_sub_element_at", "ok", "", |w| r(w.e("p1el").create_named_sub_element_at(EN::System, "New", 0)));
         op!(v, "create_named_sub_element_at", "badpos", "", |w| r(w.e("p1el").create_named_sub_element_at(EN::System, "New", 99)));
+        // the result names the returned element by its position among the children of that kind (two calls must get the SAME element)
+        fn which(parent: &Element, x: Result<Element, AutosarDataError>) -> String {
+            match x {
+                Ok(e) => {
+                    let same: Vec<Element> = parent.sub_elements().filter(|s| s.element_name() == e.element_name()).collect();
+                    format!("ok:{:?}#{}of{}", e.element_name(), same.iter().position(|s| *s == e).map_or(-1, |p| p as i64), same.len())
+                }
+                Err(e) => format!("err:{}", variant(&e)),
+            }
+        }
         op!(v, "get_or_create_sub_element", "get", "", |w| r(w.e("p2").get_or_create_sub_element(EN::Elements)));
         op!(v, "get_or_create_sub_element", "create", "", |w| r(w.e("p1").get_or_create_sub_element(EN::Category)));
+        op!(v, "get_or_create_sub_element", "create_which", "", |w| which(&w.e("p1"), w.e("p1").get_or_create_sub_element(EN::Category)));
+        op!(v, "get_or_create_sub_element", "stale", "", |w| r(w.e("stale").get_or_create_sub_element(EN::Category)));
         op!(v, "get_or_create_named_sub_element", "get", "", |w| r(w.e("p1el").get_or_create_named_sub_element(EN::EcuInstance, "Ecu1")));
         op!(v, "get_or_create_named_sub_element", "create", "", |w| r(w.e("p1el").get_or_create_named_sub_element(EN::EcuInstance, "EcuN")));
+        op!(v, "get_or_create_named_sub_element", "create_which", "", |w| which(&w.e("p1el"), w.e("p1el").get_or_create_named_sub_element(EN::EcuInstance, "EcuN")));
+        op!(v, "get_or_create_named_sub_element", "create_pkg", "", |w| which(&w.e("pkgs"), w.e("pkgs").get_or_create_named_sub_element(EN::ArPackage, "PN")));
         // ---------------------------------------------------------------- copy
         op!(v, "create_copied_sub_element", "local", "", |w| r(w.e("p2el").create_copied_sub_element(&w.e("ecu1"))));
         op!(v, "create_copied_sub_element", "local_withref", "", |w| r(w.e("p2el").create_copied_sub_element(&w.e("sys"))));
@@ -292,6 +306,9 @@ pub mod imp {
         op!(v, "move_element_here", "stale_self", "", |w| r(w.e("stale").move_element_here(&w.e("ecu1"))));
         op!(v, "move_element_here", "wrongtype", "", |w| r(w.e("p2el").move_element_here(&w.e("p1"))));
         op!(v, "move_element_here", "deep_to_flat", "S3", |w| r(w.e("p2el").move_element_here(&w.e("ecudeep"))));
+        // destination below the moved element's current parent (via a sibling): the mover holds the destination and then needs the source parent
+        op!(v, "move_element_here", "into_sibling_subtree", "S3", |w| r(w.e("sub1").move_element_here(&w.e("p1el"))));
+        op!(v, "move_element_here_at", "into_sibling_subtree", "S3", |w| r(w.e("sub1").move_element_here_at(&w.e("p1el"), 1)));
         op!(v, "move_element_here", "clash", "", |w| r(w.e("p2el").move_element_here(&w.e("ecu2"))));
         op!(v, "move_element_here", "clash_referenced", "", |w| {
             let _ = w.e("ref1").set_reference_target(&w.e("ecu2"));
